@@ -974,10 +974,16 @@ func orderByBindingsChecker() ClauseHook {
 		}
 		// If dups exist rewrite the order by SortConfig.
 		if dups {
-			s.orderBy = table.SortConfig{}
-			for b, d := range seen {
-				s.orderBy = append(s.orderBy, table.SortConfig{{Binding: b, Desc: d}}...)
+			// Drop the repeated keys, keeping the first occurrence of each so
+			// that the keys stay in the order they were written.
+			dedup, added := table.SortConfig{}, make(map[string]bool)
+			for _, cfg := range s.orderBy {
+				if !added[cfg.Binding] {
+					added[cfg.Binding] = true
+					dedup = append(dedup, cfg)
+				}
 			}
+			s.orderBy = dedup
 		}
 		return hook, nil
 	}
